@@ -1,5 +1,6 @@
 import MJ.Proofs.OutputProg
 import MJ.Proofs.OutputEmit
+import MJ.Proofs.OutputUser
 /-!
 # C19 — a failing output sink stops the render with the sink's own error
 
@@ -123,7 +124,7 @@ theorem benign_sink_same_as_plain (ops : List Op) (script : List Beh)
     (renderTo ops script).result = (renderString ops).result ∧
     delivered (renderTo ops script).calls = (renderString ops).buf := by
   obtain ⟨hbuf, hcalls, hr⟩ := render_spec ops script
-  have hok := feed_benign (chunksOf ops) (⟨script, [], none⟩ : WriteWrapper) hb
+  have hok := feed_benign (chunksOf ops) (⟨script, [], none⟩ : WriteWrapper) hb rfl
   rcases (render_facts ops script).2 with ⟨_, hres, hd⟩ | ⟨e, hfw, _⟩
   · exact ⟨hres, hd⟩
   · exfalso
@@ -167,7 +168,12 @@ theorem no_panic (ops : List Op) (script : List Beh) (hb : balanced 0 ops = true
   simp only [renderTo]
   cases hr : (run ops (St.init (⟨script, [], none⟩ : WriteWrapper))).2 with
   | panic => exact absurd hr h1
-  | ok x => cases x <;> simp
+  | ok x =>
+    cases x with
+    | error e => simp [WriteWrapper.finish]
+    | ok u =>
+      simp only [WriteWrapper.finish]
+      split <;> simp
 
 example : balanced 0 [.beginCapture false, .write (.str [2]), .endCapture, .write (.str [4])] = true := by
   decide
@@ -362,19 +368,31 @@ theorem unhooked_bodies_pinned :
     MJ.Gen.c19UnhookedBodies = [("target", "unsafe·{·&mut·*self.target·}")] := by
   decide +kernel
 
-/-- **The adapter stores the error**: whenever a `fmt::Write` method of `WriteWrapper` reports
-    `fmt::Error`, the error slot holds the error with which the sink's last call failed (and that
-    call is the last one logged); when it reports success the slot is unchanged. -/
+/-- **The adapter stores the error and is poisoned by it**: whenever a `fmt::Write` method of a
+    `WriteWrapper` that holds no error reports `fmt::Error`, the error slot holds the error with
+    which the sink's last call failed (and that call is the last one logged); when it reports
+    success the slot stays empty; and a wrapper that holds an error reports `fmt::Error` without
+    calling the sink, keeping that first error. -/
 theorem adapter_stores_error (w : WriteWrapper) (c : Chunk) :
-    ((put w c).2 = false → ∃ e new, (put w c).1.err = some e ∧ (put w c).1.calls = w.calls ++ new ∧
-        FailsWith new e) ∧
-    ((put w c).2 = true → (put w c).1.err = w.err) := by
+    (w.err = none → (put w c).2 = false → ∃ e new, (put w c).1.err = some e ∧
+        (put w c).1.calls = w.calls ++ new ∧ FailsWith new e) ∧
+    (w.err = none → (put w c).2 = true → (put w c).1.err = none) ∧
+    (∀ e, w.err = some e → put w c = (w, false)) := by
   obtain ⟨_, _, h3⟩ := writeAll_spec w.script c.bytes
   rw [put_wrapper]
-  simp only [WriteWrapper.writeBytes]
-  cases he : (writeAll w.script c.bytes).err with
-  | none => simp
-  | some e => exact ⟨fun _ => ⟨e, _, rfl, rfl, h3 e he⟩, by simp⟩
+  refine ⟨?_, ?_, fun e he => writeBytes_of_some he _⟩
+  · intro hw
+    rw [writeBytes_of_none hw]
+    simp only [WriteWrapper.writeBytesOk]
+    cases he : (writeAll w.script c.bytes).err with
+    | none => simp
+    | some e => exact fun _ => ⟨e, _, rfl, rfl, h3 e he⟩
+  · intro hw
+    rw [writeBytes_of_none hw]
+    simp only [WriteWrapper.writeBytesOk]
+    cases he : (writeAll w.script c.bytes).err with
+    | none => simp [hw]
+    | some e => simp
 
 example : (put (⟨[.accept 1, .err ⟨.other, 2⟩], [], none⟩ : WriteWrapper) (.chr [195, 169])).1.err
     = some ⟨.other, 2⟩ := by decide
@@ -384,6 +402,76 @@ example : (put (⟨[.accept 1, .err ⟨.other, 2⟩], [], none⟩ : WriteWrapper
     additional override (e.g. a `write_fmt` fast path) is a new row and has to be modelled -/
 theorem writewrapper_methods_store :
     MJ.Gen.c19WriteWrapperMethods = [("write_str", true), ("write_char", true)] := by
+  decide +kernel
+
+/-! ## user code that drops write errors, transient sinks -/
+
+/-- **Dropped errors change nothing.**  Let user code (a custom formatter, an `Object::render`)
+    ignore the result of any of its writes and go on — write more, return `Ok`, return another
+    error.  For every such render and every sink behaviour (also a sink that fails once and then
+    works again): the sink sees exactly the calls it sees when the same operations respect every
+    write result, and the API returns the same result — or a panic raised later by that user code. -/
+theorem dropped_errors_change_nothing (uops : List UOp) (script : List Beh) :
+    (renderToU uops script).calls = (renderTo (strictU uops) script).calls ∧
+    ((renderToU uops script).result = (renderTo (strictU uops) script).result ∨
+     (renderToU uops script).result = .panic) := by
+  obtain ⟨hw, hr⟩ := runU_strict uops (St.init (⟨script, [], none⟩ : WriteWrapper)) rfl
+  simp only [renderToU, renderTo]
+  refine ⟨by rw [hw], ?_⟩
+  rw [hw]
+  rcases hr with hr | ⟨herr, e0, hres⟩
+  · left; rw [hr]
+  · rw [hres]
+    cases he : (run (strictU uops) (St.init (⟨script, [], none⟩ : WriteWrapper))).1.out.w.err with
+    | none => exact absurd he herr
+    | some e =>
+      cases hx : (runU uops (St.init (⟨script, [], none⟩ : WriteWrapper))).2 with
+      | panic => right; rfl
+      | ok x =>
+        left
+        cases x <;> simp [WriteWrapper.finish, WriteWrapper.takeErr, he]
+
+/-- **C19 against careless user code**: whatever user code does with the results of its writes,
+    what the sink accepted is a prefix of the plain render's string, the call at which the sink
+    failed is the last call it ever receives (also if it would have worked again), and if it failed
+    with `e` the API returns `WriteFailure` with source `e` (or the user code panicked later). -/
+theorem C19_with_careless_user_code (uops : List UOp) (script : List Beh) :
+    delivered (renderToU uops script).calls <+: (renderString (strictU uops)).buf ∧
+    (∀ (i : Nat) (h : i < (renderToU uops script).calls.length),
+        ((renderToU uops script).calls[i]).failure ≠ none → i + 1 = (renderToU uops script).calls.length) ∧
+    (∀ c ∈ (renderToU uops script).calls, ∀ e, c.failure = some e →
+        (renderToU uops script).result = .ok (.error (.writeFailure (some e))) ∨
+        (renderToU uops script).result = .panic) := by
+  obtain ⟨hc, hr⟩ := dropped_errors_change_nothing uops script
+  obtain ⟨a, b, c, _⟩ := C19_holds (strictU uops) script
+  rw [hc]
+  refine ⟨a, b, ?_⟩
+  intro cl hcl e hf
+  rcases hr with hr | hr
+  · left; rw [hr]; exact c cl hcl e hf
+  · right; exact hr
+
+/-- an object that keeps writing after a failed write and returns `Ok`, a sink that fails once
+    (`WouldBlock`) and would work again: one failed call, nothing after it, `WriteFailure` -/
+example :
+    let r := renderToU [.strict (.write (.str [97])), .writeIgn (.str [120]), .writeIgn (.str [62]),
+      .strict (.write (.str [98]))] [.all, .err ⟨.wouldBlock, 3⟩]
+    r.calls.length = 2 ∧ delivered r.calls = [97] ∧
+    (match r.result with | .ok (.error (.writeFailure (some e))) => e.id == 3 | _ => false) = true := by
+  decide
+
+/-- **The tracker of `render_guarded` is "any write failed"** (`failed |= rv.is_err()` folded
+    over the results of the object's writes), not "the last write failed". -/
+theorem tracker_is_any (results : List Bool) :
+    trackFailed results = results.any (fun ok => !ok) := by
+  simpa [trackFailed] using trackFailed_acc results false
+
+example : trackFailed [true, false, true] = true := by decide
+
+/-- both forwarding methods of the tracker update the flag with `|=` (regenerated from
+    value/object.rs) -/
+theorem tracker_update_is_or :
+    MJ.Gen.c19TrackerUpdate = [("write_str", "|="), ("write_char", "|=")] := by
   decide +kernel
 
 end MJ.C19
